@@ -1,3 +1,400 @@
-"""placeholder"""
-def generate(repo):
-    return "(* placeholder *)\n"
+"""Fail-closed translator for C14: the call-state cache and the order in which a continuation resolves its tokens.
+
+Sources: vgi_rpc/http/server/_state_token.py (_CallStateCache._identity/get/put, the TTL guards of the two open functions),
+         vgi_rpc/http/server/_app_stream.py  (_unpack_and_recover_state, _resolve_call_from_token, every use of the cache),
+         vgi_rpc/http/server/_app.py         (the constructor arguments of the cache).
+
+Output (coq/gen/G_CallCache.v):
+  gen_anon_ident, gen_ident_parts    _identity: the anonymous literal and the parts of the f-string
+  gen_key_fields                     the cache key tuple of get and put
+  gen_get_expired, gen_put_expiry, gen_over_capacity, gen_evict_oldest      guards / expressions of get and put
+  gen_cache_ttl_sec                  the ttl= expression handed to the constructor, as a function of token_ttl
+  gen_cursor_expired, gen_call_expired   `token_ttl > 0` and `int(time.time()) - created_at > token_ttl` over Z
+  gen_resolve_order                  statement order of _unpack_and_recover_state up to the resolved call
+  gen_cold_checks                    order of the checks of _resolve_call_from_token
+  gen_cache_uses                     every `app._call_state_cache.<op>(...)` site of _app_stream.py, in source order
+Expressions are translated by a small grammar (a changed operator yields a different Coq term and the tie lemma fails);
+statement shapes are compared with the shape the model was written against (any other shape: TranslationBroken).
+"""
+from __future__ import annotations
+
+import ast
+from pathlib import Path
+from typing import Any
+
+from vlib.core import TranslationBroken
+
+ST = "vgi_rpc/http/server/_state_token.py"
+AS = "vgi_rpc/http/server/_app_stream.py"
+AP = "vgi_rpc/http/server/_app.py"
+
+
+def _d(src: str, mode: str = "exec") -> str:
+    t = ast.parse(src, mode=mode)
+    return ast.dump(t.body if mode == "eval" else t.body[0])
+
+
+def _body(fn: ast.FunctionDef) -> list[ast.stmt]:
+    b = list(fn.body)
+    if b and isinstance(b[0], ast.Expr) and isinstance(b[0].value, ast.Constant) and isinstance(b[0].value.value, str):
+        b = b[1:]
+    return b
+
+
+def _find(tree: ast.AST, name: str, site: str, cls: str | None = None) -> ast.FunctionDef:
+    scope: Any = tree
+    if cls is not None:
+        cs = [n for n in tree.body if isinstance(n, ast.ClassDef) and n.name == cls]  # type: ignore[attr-defined]
+        if len(cs) != 1:
+            raise TranslationBroken(site, f"class {cls}: expected exactly one definition")
+        scope = cs[0]
+    fs = [n for n in scope.body if isinstance(n, ast.FunctionDef) and n.name == name]
+    if len(fs) != 1:
+        raise TranslationBroken(site, f"{cls + '.' if cls else ''}{name}: expected exactly one definition")
+    return fs[0]
+
+
+def _expect(stmt: ast.AST, src: str, site: str, what: str) -> None:
+    if ast.dump(stmt) != _d(src):
+        raise TranslationBroken(site, f"{what}: expected `{src}`, found `{ast.unparse(stmt)[:160]}`")
+
+
+# ---- expressions ------------------------------------------------------------------------------------------------
+class Expr:
+    """Translate a Python arithmetic / comparison expression to a Coq term over N or Z."""
+
+    def __init__(self, site: str, env: dict[str, str], scope: str) -> None:
+        self.site, self.env, self.scope = site, env, scope  # env: dump of a leaf expression -> Coq variable
+
+    def bad(self, e: ast.AST) -> TranslationBroken:
+        return TranslationBroken(self.site, f"expression outside the translated grammar: {ast.unparse(e)[:120]}")
+
+    def num(self, e: ast.expr) -> str:
+        k = ast.dump(e)
+        if k in self.env:
+            return self.env[k]
+        if isinstance(e, ast.Constant) and type(e.value) in (int, float) and e.value >= 0 and float(e.value).is_integer():
+            return f"{int(e.value)}%{self.scope}"
+        if isinstance(e, ast.Call) and isinstance(e.func, ast.Name) and e.func.id in ("float", "int") and len(e.args) == 1 and not e.keywords:
+            return self.num(e.args[0])
+        if isinstance(e, ast.BinOp) and isinstance(e.op, (ast.Add, ast.Sub, ast.Mult)):
+            op = {ast.Add: "+", ast.Sub: "-", ast.Mult: "*"}[type(e.op)]
+            return f"({self.num(e.left)} {op} {self.num(e.right)})%{self.scope}"
+        if isinstance(e, ast.IfExp):
+            return f"(if {self.boolean(e.test)} then {self.num(e.body)} else {self.num(e.orelse)})"
+        raise self.bad(e)
+
+    def boolean(self, e: ast.expr) -> str:
+        if isinstance(e, ast.Compare) and len(e.ops) == 1:
+            a, b = self.num(e.left), self.num(e.comparators[0])
+            op = type(e.ops[0])
+            m = self.scope
+            if op is ast.LtE:
+                return f"({a} <=? {b})%{m}"
+            if op is ast.Lt:
+                return f"({a} <? {b})%{m}"
+            if op is ast.GtE:
+                return f"({b} <=? {a})%{m}"
+            if op is ast.Gt:
+                return f"({b} <? {a})%{m}"
+            if op is ast.Eq:
+                return f"({a} =? {b})%{m}"
+            if op is ast.NotEq:
+                return f"(negb ({a} =? {b}))%{m}"
+        if isinstance(e, ast.BoolOp):
+            j = " && " if isinstance(e.op, ast.And) else " || "
+            return "(" + j.join(self.boolean(v) for v in e.values) + ")"
+        if isinstance(e, ast.UnaryOp) and isinstance(e.op, ast.Not):
+            return f"(negb {self.boolean(e.operand)})"
+        raise self.bad(e)
+
+
+def _codepoints(s: str) -> str:
+    return "[" + "; ".join(str(ord(c)) for c in s) + "]%N"
+
+
+# ---- _CallStateCache -----------------------------------------------------------------------------------------------
+def _identity(tree: ast.Module) -> list[str]:
+    fn = _find(tree, "_identity", ST, "_CallStateCache")
+    b = _body(fn)
+    if len(b) != 2 or not isinstance(b[0], ast.If) or b[0].orelse or not isinstance(b[1], ast.Return):
+        raise TranslationBroken(ST, "_identity: expected `if <anonymous>: return <literal>` followed by `return f\"...\"`")
+    if ast.dump(b[0].test) != _d("auth is None or not auth.authenticated", "eval"):
+        raise TranslationBroken(ST, f"_identity: anonymous test changed: {ast.unparse(b[0].test)}")
+    r0 = b[0].body
+    if len(r0) != 1 or not isinstance(r0[0], ast.Return) or not isinstance(r0[0].value, ast.Constant) or not isinstance(r0[0].value.value, str):
+        raise TranslationBroken(ST, "_identity: the anonymous branch does not return a string literal")
+    anon = r0[0].value.value
+    js = b[1].value
+    if not isinstance(js, ast.JoinedStr):
+        raise TranslationBroken(ST, "_identity: the authenticated branch is not an f-string")
+    parts = []
+    for v in js.values:
+        if isinstance(v, ast.Constant) and isinstance(v.value, str):
+            parts.append(f"inr {_codepoints(v.value)}")
+        elif isinstance(v, ast.FormattedValue) and v.conversion == -1 and v.format_spec is None:
+            k = ast.dump(v.value)
+            if k == _d("auth.domain or ''", "eval"):
+                parts.append("inl 0%N")
+            elif k == _d("auth.principal or ''", "eval"):
+                parts.append("inl 1%N")
+            else:
+                raise TranslationBroken(ST, f"_identity: unknown f-string field {ast.unparse(v.value)}")
+        else:
+            raise TranslationBroken(ST, "_identity: f-string part with conversion / format spec")
+    return [
+        f"Definition gen_anon_ident : list N := {_codepoints(anon)}.",
+        "(* inl 0 = (auth.domain or \"\"), inl 1 = (auth.principal or \"\"), inr = literal text *)",
+        "Definition gen_ident_parts : list (N + list N) := [" + "; ".join(parts) + "].",
+    ]
+
+
+KEY_SRC = "key = (call_id, self._identity(auth))"
+
+
+def _get_put(tree: ast.Module) -> list[str]:
+    out = []
+    # ---- get
+    g = _body(_find(tree, "get", ST, "_CallStateCache"))
+    if [a.arg for a in _find(tree, "get", ST, "_CallStateCache").args.args] != ["self", "call_id", "auth", "now"]:
+        raise TranslationBroken(ST, "get: signature changed")
+    if len(g) != 2 or not isinstance(g[1], ast.With):
+        raise TranslationBroken(ST, "get: expected key assignment followed by one `with self._lock:` block")
+    _expect(g[0], KEY_SRC, ST, "get: cache key")
+    if ast.dump(g[1].items[0].context_expr) != _d("self._lock", "eval"):
+        raise TranslationBroken(ST, "get: not under self._lock")
+    w = g[1].body
+    if len(w) != 6:
+        raise TranslationBroken(ST, f"get: {len(w)} statements under the lock, the model has 6")
+    _expect(w[0], "entry = self._entries.get(key)", ST, "get: lookup")
+    _expect(w[1], "if entry is None:\n    return None", ST, "get: miss")
+    _expect(w[2], "expires_at, resolved = entry", ST, "get: unpack")
+    if not isinstance(w[3], ast.If) or w[3].orelse or len(w[3].body) != 2:
+        raise TranslationBroken(ST, "get: expiry branch changed")
+    _expect(w[3].body[0], "del self._entries[key]", ST, "get: expired entry is deleted")
+    _expect(w[3].body[1], "return None", ST, "get: expired entry is a miss")
+    ex = Expr(ST, {_d("expires_at", "eval"): "expires_at", _d("now", "eval"): "now"}, "N")
+    out.append(f"Definition gen_get_expired (expires_at now : N) : bool := {ex.boolean(w[3].test)}.")
+    _expect(w[4], "self._entries.move_to_end(key)", ST, "get: LRU touch")
+    _expect(w[5], "return resolved", ST, "get: hit")
+    # ---- put
+    pf = _find(tree, "put", ST, "_CallStateCache")
+    if [a.arg for a in pf.args.args] != ["self", "call_id", "auth", "resolved", "now"]:
+        raise TranslationBroken(ST, "put: signature changed")
+    p = _body(pf)
+    if len(p) != 2 or not isinstance(p[1], ast.With) or ast.dump(p[1].items[0].context_expr) != _d("self._lock", "eval"):
+        raise TranslationBroken(ST, "put: expected key assignment followed by one `with self._lock:` block")
+    _expect(p[0], KEY_SRC, ST, "put: cache key")
+    w = p[1].body
+    if len(w) != 3:
+        raise TranslationBroken(ST, f"put: {len(w)} statements under the lock, the model has 3")
+    s0 = w[0]
+    ok = (isinstance(s0, ast.Assign) and len(s0.targets) == 1 and ast.dump(s0.targets[0]) == ast.dump(ast.parse("self._entries[key] = 0").body[0].targets[0])  # type: ignore[attr-defined]
+          and isinstance(s0.value, ast.Tuple) and len(s0.value.elts) == 2 and ast.dump(s0.value.elts[1]) == _d("resolved", "eval"))
+    if not ok:
+        raise TranslationBroken(ST, f"put: store statement changed: {ast.unparse(s0)}")
+    ex = Expr(ST, {_d("now", "eval"): "now", _d("self._ttl", "eval"): "ttl"}, "N")
+    out.append(f"Definition gen_put_expiry (now ttl : N) : N := {ex.num(s0.value.elts[0])}.")  # type: ignore[union-attr]
+    _expect(w[1], "self._entries.move_to_end(key)", ST, "put: LRU touch")
+    lp = w[2]
+    if not isinstance(lp, ast.While) or lp.orelse or len(lp.body) != 1:
+        raise TranslationBroken(ST, "put: eviction loop changed")
+    ex = Expr(ST, {_d("len(self._entries)", "eval"): "len", _d("self._max_entries", "eval"): "cap"}, "N")
+    out.append(f"Definition gen_over_capacity (len cap : N) : bool := {ex.boolean(lp.test)}.")
+    if ast.dump(lp.body[0]) == _d("self._entries.popitem(last=False)"):
+        out.append("Definition gen_evict_oldest : bool := true.")
+    elif ast.dump(lp.body[0]) in (_d("self._entries.popitem(last=True)"), _d("self._entries.popitem()")):
+        out.append("Definition gen_evict_oldest : bool := false.")
+    else:
+        raise TranslationBroken(ST, f"put: eviction statement changed: {ast.unparse(lp.body[0])}")
+    out.append("(* 0 = call_id, 1 = self._identity(auth) *)\nDefinition gen_key_fields : list N := [0; 1]%N.")
+    # constructor: the attributes the guards read are the constructor's parameters
+    init = _body(_find(tree, "__init__", ST, "_CallStateCache"))
+    want = {"self._max_entries = max_entries", "self._ttl = ttl"}
+    have = {ast.unparse(s) for s in init}
+    if not want <= have:
+        raise TranslationBroken(ST, "_CallStateCache.__init__: _max_entries / _ttl are not the constructor parameters")
+    return out
+
+
+def _ttl_guards(tree: ast.Module) -> list[str]:
+    out = []
+    names = {n.name for n in tree.body if isinstance(n, ast.FunctionDef)}
+    call_fn = "_open_call_token_dated" if "_open_call_token_dated" in names else "_open_call_token"
+    if call_fn == "_open_call_token_dated":
+        w = _body(_find(tree, "_open_call_token", ST))
+        if len(w) != 1 or ast.unparse(w[0]) != "return _open_call_token_dated(token, token_key, aad, token_ttl)[0]":
+            raise TranslationBroken(ST, "_open_call_token is not the plain projection of _open_call_token_dated")
+    for fname, gname in (("_open_cursor_token", "gen_cursor_expired"), (call_fn, "gen_call_expired")):
+        fn = _find(tree, fname, ST)
+        ex = Expr(ST, {_d("token_ttl", "eval"): "token_ttl", _d("int(time.time())", "eval"): "now_sec", _d("created_at", "eval"): "created_at"}, "Z")
+        flat = [s for s in _body(fn) if isinstance(s, ast.If) and any(isinstance(n, ast.Name) and n.id == "token_ttl" for n in ast.walk(s.test))]
+        dated = [s for s in _body(fn) if isinstance(s, ast.AnnAssign) and ast.unparse(s) == "created_at: int = struct.unpack_from('<Q', plaintext, 0)[0]"]
+        if dated and len(flat) == 1 and not flat[0].orelse and len(flat[0].body) == 1 and isinstance(flat[0].body[0], ast.Raise):
+            i, j = _body(fn).index(dated[0]), _body(fn).index(flat[0])
+            if j != i + 1:
+                raise TranslationBroken(ST, f"{fname}: created_at is not read right before the expiry test")
+            out.append(f"Definition {gname} (token_ttl now_sec created_at : Z) : bool := {ex.boolean(flat[0].test)}.")
+            continue
+        guards = [s for s in _body(fn) if isinstance(s, ast.If) and ast.dump(s.test) == _d("token_ttl > 0", "eval")]
+        if len(guards) != 1 or guards[0].orelse or len(guards[0].body) != 2:
+            raise TranslationBroken(ST, f"{fname}: expected exactly one `if token_ttl > 0:` block of two statements")
+        a, c = guards[0].body
+        _expect(a, "created_at = struct.unpack_from('<Q', plaintext, 0)[0]", ST, f"{fname}: created_at")
+        if not isinstance(c, ast.If) or c.orelse or len(c.body) != 1 or not isinstance(c.body[0], ast.Raise):
+            raise TranslationBroken(ST, f"{fname}: expiry test is not `if ...: raise`")
+        out.append(f"Definition {gname} (token_ttl now_sec created_at : Z) : bool := {ex.boolean(guards[0].test)} && {ex.boolean(c.test)}.")
+    return out
+
+
+# ---- _app.py ---------------------------------------------------------------------------------------------------------
+def _ctor(repo: Path) -> list[str]:
+    tree = ast.parse((repo / AP).read_text())
+    calls = [n for n in ast.walk(tree) if isinstance(n, ast.Call) and isinstance(n.func, ast.Name) and n.func.id == "_CallStateCache"]
+    if len(calls) != 1:
+        raise TranslationBroken(AP, f"expected exactly one _CallStateCache(...) construction, found {len(calls)}")
+    c = calls[0]
+    kw = {k.arg: k.value for k in c.keywords}
+    if c.args or set(kw) != {"max_entries", "ttl"}:
+        raise TranslationBroken(AP, f"_CallStateCache(...) arguments changed: {ast.unparse(c)}")
+    if ast.dump(kw["max_entries"]) != _d("call_state_cache_entries", "eval"):
+        raise TranslationBroken(AP, "max_entries is not call_state_cache_entries")
+    ex = Expr(AP, {_d("token_ttl", "eval"): "token_ttl"}, "N")
+    return [f"Definition gen_cache_ttl_sec (token_ttl : N) : N := {ex.num(kw['ttl'])}."]
+
+
+# ---- _app_stream.py --------------------------------------------------------------------------------------------------
+def _resolution(tree: ast.Module) -> list[str]:
+    b = _body(_find(tree, "_unpack_and_recover_state", AS))
+    want = [
+        "state_bytes, call_id = _open_cursor_token(token, app._token_key, _compute_aad(auth), app._token_ttl)",
+        "now = time.time()",
+        "resolved = app._call_state_cache.get(call_id, auth, now)",
+    ]
+    miss_now = "if resolved is None:\n    resolved = _resolve_call_from_token(app, call_token, call_id, state_info, auth)\n    app._call_state_cache.put(call_id, auth, resolved, now)"
+    miss_dated = ("if resolved is None:\n    resolved = _resolve_call_from_token(app, call_token, call_id, state_info, auth)\n"
+                  "    born = float(resolved.created_at) if app._token_ttl > 0 and resolved.created_at is not None else now\n"
+                  "    app._call_state_cache.put(call_id, auth, resolved, born)")
+    if len(b) < len(want) + 1:
+        raise TranslationBroken(AS, "_unpack_and_recover_state: too few statements")
+    for i, src in enumerate(want):
+        _expect(b[i], src, AS, f"_unpack_and_recover_state: statement {i + 1}")
+    if ast.dump(b[3]) == _d(miss_now):
+        dated_miss = False
+    elif ast.dump(b[3]) == _d(miss_dated):
+        dated_miss = True
+    else:
+        raise TranslationBroken(AS, f"_unpack_and_recover_state: miss branch changed: {ast.unparse(b[3])[:200]}")
+    want.append(miss_dated if dated_miss else miss_now)
+    if dated_miss:
+        # created_at must be what _open_call_token_dated read from the token, carried unchanged by _ResolvedCall
+        st = ast.parse((Path(_REPO[0]) / ST).read_text())
+        rc = [n for n in st.body if isinstance(n, ast.ClassDef) and n.name == "_ResolvedCall"]
+        if len(rc) != 1 or "self.created_at = created_at" not in {ast.unparse(x) for x in ast.walk(rc[0]) if isinstance(x, ast.Assign)}:
+            raise TranslationBroken(ST, "_ResolvedCall does not store created_at unchanged")
+        ret = [x for x in _body(_find(st, "_open_call_token_dated", ST)) if isinstance(x, ast.Return)]
+        if len(ret) != 1 or not isinstance(ret[0].value, ast.Tuple) or len(ret[0].value.elts) != 2 or ast.unparse(ret[0].value.elts[1]) != "created_at":
+            raise TranslationBroken(ST, "_open_call_token_dated does not return (fields, created_at)")
+    for s in b[len(want):]:
+        for n in ast.walk(s):
+            if isinstance(n, ast.Attribute) and n.attr == "_call_state_cache":
+                raise TranslationBroken(AS, "_unpack_and_recover_state: the cache is used again after the call is resolved")
+            if isinstance(n, ast.Name) and n.id == "call_token":
+                raise TranslationBroken(AS, "_unpack_and_recover_state: the presented call token is used after the call is resolved")
+    out = ["(* 1 open cursor (caller AAD, token_ttl) ; 2 read clock ; 3 cache.get(call_id of the cursor, auth, now) ;",
+           "   4 on a miss: 5 resolve the presented call token against that call_id ; 6 cache.put(call_id, auth, resolved, the same now) *)",
+           "Definition gen_resolve_order : list N := [1; 2; 3; 4; 5; 6]%N.",
+           "(* birth handed to put on the miss path: false = now, true = created_at of the call token when token_ttl > 0 *)",
+           f"Definition gen_dated_miss : bool := {'true' if dated_miss else 'false'}."]
+    # ---- the miss path
+    c = _body(_find(tree, "_resolve_call_from_token", AS))
+    codes: list[int] = []
+
+    def raises(s: ast.stmt, text: str) -> bool:
+        return any(isinstance(n, ast.Constant) and isinstance(n.value, str) and text in n.value for n in ast.walk(s)) and any(isinstance(n, ast.Raise) for n in ast.walk(s))
+
+    for s in c:
+        if isinstance(s, ast.If) and ast.dump(s.test) == _d("call_token is None", "eval") and raises(s, "Missing call token in exchange request"):
+            codes.append(8)
+        elif isinstance(s, ast.Assign) and not dated_miss and ast.dump(s.value) == _d("_open_call_token(call_token, app._token_key, _compute_call_aad(auth), app._token_ttl)", "eval"):
+            if ast.unparse(s.targets[0]) != "(call_state_bytes, call_state_type, schema_bytes, input_schema_bytes, token_call_id, stream_id)":
+                raise TranslationBroken(AS, "_resolve_call_from_token: result tuple of _open_call_token changed")
+            codes.append(100)
+        elif isinstance(s, ast.Assign) and dated_miss and ast.dump(s.value) == _d("_open_call_token_dated(call_token, app._token_key, _compute_call_aad(auth), app._token_ttl)", "eval"):
+            if ast.unparse(s.targets[0]) != "((call_state_bytes, call_state_type, schema_bytes, input_schema_bytes, token_call_id, stream_id), created_at)":
+                raise TranslationBroken(AS, "_resolve_call_from_token: result tuple of _open_call_token_dated changed")
+            codes.append(100)
+        elif isinstance(s, ast.If) and ast.dump(s.test) == _d("not secrets.compare_digest(token_call_id, expected_call_id)", "eval") and raises(s, "State token does not belong to the supplied call token"):
+            codes.append(9)
+        elif isinstance(s, ast.Try) and len(s.body) == 1 and ast.unparse(s.body[0]) == "output_schema = pa.ipc.read_schema(pa.py_buffer(schema_bytes))":
+            codes.append(101)
+        elif isinstance(s, ast.Try) and len(s.body) == 1 and ast.unparse(s.body[0]) == "input_schema = pa.ipc.read_schema(pa.py_buffer(input_schema_bytes))":
+            codes.append(102)
+        elif isinstance(s, ast.AnnAssign) and ast.unparse(s.target) == "call_state" and ast.unparse(s.value) == "None":  # type: ignore[arg-type]
+            continue
+        elif isinstance(s, ast.If) and ast.dump(s.test) == _d("call_state_bytes", "eval") and not s.orelse:
+            inner = s.body
+            ok = (len(inner) == 3 and ast.unparse(inner[0]) == "call_state_cls = _declared_call_state_types(state_info).get(call_state_type)"
+                  and isinstance(inner[1], ast.If) and ast.dump(inner[1].test) == _d("call_state_cls is None", "eval") and raises(inner[1], "which this method does not")
+                  and isinstance(inner[2], ast.Try))
+            if not ok:
+                raise TranslationBroken(AS, "_resolve_call_from_token: call-state type check changed")
+            codes += [11, 103]
+        elif isinstance(s, ast.Return) and ast.unparse(s.value) == ("_ResolvedCall(call_state, output_schema, input_schema, stream_id, created_at)" if dated_miss else "_ResolvedCall(call_state, output_schema, input_schema, stream_id)"):  # type: ignore[arg-type]
+            codes.append(104)
+        else:
+            raise TranslationBroken(AS, f"_resolve_call_from_token: statement not modelled: {ast.unparse(s)[:100]}")
+    out += ["(* 8 missing ; 100 open (call AAD of the caller, token_ttl) ; 9 call id must equal the cursor's ; 101/102 schemas ;",
+            "   11 declared call-state type (only when the token carries call state) ; 103 deserialize ; 104 build the resolved call *)",
+            "Definition gen_cold_checks : list N := [" + "; ".join(str(x) for x in codes) + "]%N."]
+    # declared types: CALL_STATE_TYPE of the method's state classes
+    dct = _body(_find(tree, "_declared_call_state_types", AS))
+    if [ast.unparse(s) for s in dct] != [
+        "members = state_info if isinstance(state_info, tuple) else (state_info,)",
+        "return {m.CALL_STATE_TYPE.__name__: m.CALL_STATE_TYPE for m in members if m.CALL_STATE_TYPE is not None}",
+    ]:
+        raise TranslationBroken(AS, "_declared_call_state_types changed")
+    # ---- every use of the cache in the module, in source order
+    uses = []
+    for n in ast.walk(tree):
+        if isinstance(n, ast.Call) and isinstance(n.func, ast.Attribute) and ast.dump(n.func.value) == _d("app._call_state_cache", "eval"):
+            uses.append((n.lineno, n.col_offset, n))
+    uses.sort(key=lambda t: t[:2])
+    srcs = [ast.unparse(n) for _, _, n in uses]
+    want_uses = [
+        "app._call_state_cache.put(call_id, auth, _ResolvedCall(result.call_state, result.output_schema, result.input_schema, stream_id), time.time())",
+        "app._call_state_cache.get(call_id, auth, now)",
+        "app._call_state_cache.put(call_id, auth, resolved, born)" if dated_miss else "app._call_state_cache.put(call_id, auth, resolved, now)",
+    ]
+    if srcs != want_uses:
+        raise TranslationBroken(AS, f"uses of the call-state cache changed: {srcs}")
+    others = [n for n in ast.walk(tree) if isinstance(n, ast.Attribute) and n.attr == "_call_state_cache"]
+    if len(others) != 3:
+        raise TranslationBroken(AS, "the call-state cache is referenced outside the three modelled call sites")
+    # warm-up: the very objects of the call token just minted, under the id it was minted with
+    init = _find(tree, "_run_stream_init_sync", AS)
+    mint = [n for n in ast.walk(init) if isinstance(n, ast.Assign) and isinstance(n.value, ast.Call) and ast.unparse(n.value.func) == "_mint_call_token"]
+    if len(mint) != 1 or ast.unparse(mint[0]) != "call_token, call_id, call_state_bytes = _mint_call_token(result.call_state, result.output_schema, result.input_schema, app._token_key, auth, stream_id)":
+        raise TranslationBroken(AS, "_run_stream_init_sync: minting of the call token changed")
+    if not (mint[0].lineno < uses[0][0]):
+        raise TranslationBroken(AS, "_run_stream_init_sync: cache warm-up precedes the mint")
+    out += ["(* 1 = put at /init (objects of the token just minted, clock read at the put) ; 2 = get ; 3 = put on the miss path *)",
+            "Definition gen_cache_uses : list N := [1; 2; 3]%N."]
+    return out
+
+
+def dated_miss(repo: Path) -> bool:
+    """The flag of the miss-path put, for the correspondence driver (the same value goes into gen_dated_miss)."""
+    return "Definition gen_dated_miss : bool := true." in generate(repo)
+
+
+_REPO: list[Path] = [Path("/repo")]
+
+
+def generate(repo: Path) -> str:
+    _REPO[0] = repo
+    st = ast.parse((repo / ST).read_text())
+    ap = ast.parse((repo / AS).read_text())
+    lines = ["From Coq Require Import List NArith ZArith Bool.", "Import ListNotations.", "Open Scope N_scope.", ""]
+    lines += _identity(st) + _get_put(st) + _ttl_guards(st) + _ctor(repo) + _resolution(ap)
+    return "\n".join(lines) + "\n"
